@@ -13,9 +13,15 @@ func VPH_footnotes() {
 	f := NewFootnotes()
 	var texts []string
 	var cites []string
-	ascii := vp_Choice("ascii-only", 2) == 1 // second family: ASCII names (control characters included)
+	family := vp_Choice("family", 3) // 0: free bytes, 1: free ASCII bytes (control characters included), 2: concrete names that are not valid UTF-8
+	ascii := family == 1
 	for i := 0; i < k; i++ {
-		t := vp_Str("text", vp_Choice("len", tl+1))
+		var t string
+		if family == 2 {
+			t = []string{"caf\xe9", "\xff\xfe", "ok", "a\x80b"}[vp_Choice("name", 4)]
+		} else {
+			t = vp_Str("text", vp_Choice("len", tl+1))
+		}
 		if ascii {
 			vp_AssumeASCII(t)
 		}
